@@ -1365,6 +1365,7 @@ func ruleCountLoop(c *Ctx) {
 			}
 			// the loop's exit tests: If instructions in the body with a successor outside it, comparing an induction value with a bound
 			var bounds []ssa.Value
+			var exits []*ssa.BasicBlock // where the loop is left when the test with that bound fails
 			var at token.Pos
 			for bb := range body {
 				ifi, ok := bb.Instrs[len(bb.Instrs)-1].(*ssa.If)
@@ -1373,6 +1374,10 @@ func ruleCountLoop(c *Ctx) {
 				}
 				if body[bb.Succs[0]] && body[bb.Succs[1]] {
 					continue
+				}
+				exitTo := bb.Succs[0]
+				if body[exitTo] {
+					exitTo = bb.Succs[1]
 				}
 				bo, ok := ifi.Cond.(*ssa.BinOp)
 				if !ok {
@@ -1415,6 +1420,7 @@ func ruleCountLoop(c *Ctx) {
 					}
 					return inits, len(inits) > 0
 				}
+				nb := len(bounds)
 				switch {
 				case isInd(bo.X) && !isInd(bo.Y):
 					if inits, ok := downFrom(bo.X, bo.Y); ok {
@@ -1431,6 +1437,10 @@ func ruleCountLoop(c *Ctx) {
 					}
 					at = bo.Pos()
 				}
+				for len(exits) < len(bounds) {
+					exits = append(exits, exitTo)
+				}
+				_ = nb
 			}
 			if len(bounds) == 0 {
 				continue // exit decided by the data offset (field loops): not a counted loop
@@ -1438,10 +1448,14 @@ func ruleCountLoop(c *Ctx) {
 			// an "offset < len(data)"-style bound is a data loop, not an element-count loop
 			counted := false
 			okAll := true
-			for _, bd := range bounds {
+			var dataExits []*ssa.BasicBlock
+			for bi, bd := range bounds {
 				if call, ok := bd.(*ssa.Call); ok {
 					if b, ok := call.Common().Value.(*ssa.Builtin); ok && b.Name() == "len" {
 						if prm, ok := call.Common().Args[0].(*ssa.Parameter); ok && isByteSlice(prm.Type()) {
+							if bi < len(exits) {
+								dataExits = append(dataExits, exits[bi])
+							}
 							continue
 						}
 					}
@@ -1457,6 +1471,15 @@ func ruleCountLoop(c *Ctx) {
 			n++
 			if at == token.NoPos {
 				at = f.Pos()
+			}
+			// running out of data before the count is reached is an error: an exit
+			// of a counted loop on "offset < len(data)" that does not fail accepts a
+			// collection cut short at an entry boundary
+			for _, ex := range dataExits {
+				r, isRet := ex.Instrs[len(ex.Instrs)-1].(*ssa.Return)
+				if !(isRet && isFailureReturnLoose(f, r)) {
+					okAll = false
+				}
 			}
 			if name == "plenccore.Skip" {
 				// Skip must fail on a count the data cannot hold: comparing the index
